@@ -18,7 +18,11 @@ vars == <<cfg, time, dt, phase, k, hist, saveTime, noSent, stat, obs, out, mon, 
 P == INSTANCE IvpProtocol WITH
        Plus <- LAMBDA a, b : a + b, Minus <- LAMBDA a, b : a - b, Mul <- LAMBDA n, x : n * x,
        DivN <- LAMBDA x, n : x \div n, Lt <- LAMBDA a, b : a < b, Le <- LAMBDA a, b : a <= b,
-       LtC <- LAMBDA a, b : a < b, LeC <- LAMBDA a, b : a <= b, KeepHistory <- TRUE
+       LtC <- LAMBDA a, b : a < b, LeC <- LAMBDA a, b : a <= b, KeepHistory <- TRUE,
+       Frac <- LAMBDA n, d, x : (x * n) \div d,
+       \* Fehlberg 4(5) on even, Bogacki-Shampine 3(2) on odd interval lengths
+       StagesOf <- LAMBDA c : IF c.t1 % 2 = 0 THEN << <<0, 1>>, <<1, 4>>, <<3, 8>>, <<12, 13>>, <<1, 1>>, <<1, 2>> >>
+                              ELSE << <<0, 1>>, <<1, 2>>, <<3, 4>>, <<1, 1>> >>
 
 C == INSTANCE IvpContract WITH
        Plus <- LAMBDA a, b : a + b, Minus <- LAMBDA a, b : a - b,
@@ -78,6 +82,7 @@ PathGaps == C!GapBounded(CfgOf(cfg), out)
 EndReached == (obs = <<"none">> /\ stat = "run" /\ cfg.kind # "euler") => C!EndExact(CfgOf(cfg), out)
 EulerOnGrid == (obs = <<"none">> /\ stat = "run" /\ cfg.kind = "euler") => C!EulerGrid(CfgOf(cfg), out)
 HistAligned == P!HistAligned
+EvalsInsideInterval == P!EvalsInsideInterval
 StepWithinMax == P!StepWithinMax
 NothingPending == P!NothingPendingAtDone
 AtMostOneErr == stat = "failed" => (obs[1] \in {"err", "none"})
